@@ -371,7 +371,9 @@ def sanitize_ir(_ir, frontend, pp_registry=None, pp_info=None):
     """
     # Apply postprocessing rules to re-insert information lost during preprocessing
     if pp_info is not None and pp_registry is not None:
-        for r_name, rule in pp_registry.items():
+        # Re-insert in reverse order of stripping, so that a rule sees the
+        # source line in the state in which it had matched it
+        for r_name, rule in reversed(list(pp_registry.items())):
             info = pp_info.get(r_name, None)
             _ir = rule.postprocess(_ir, info)
 
